@@ -191,6 +191,72 @@ theorem C12_host_resolution_configured (cfg : HostCfg) (d b t : Bytes) (hc : Con
     ∃ parse, cfg.parser = some parse ∧ parse (b ++ dot :: t) = some ⟨d, some b⟩ :=
   parser_of_configured hc b t ht hb
 
+/-! ## a host outside the base domains: the port of the `Host` value is no part of the bucket -/
+
+/-- the base domains of a configuration -/
+def BaseDomain (cfg : HostCfg) (d : Bytes) : Prop := cfg = .single d ∨ ∃ ds, cfg = .multi ds ∧ d ∈ ds
+
+/-- a `Host` value `h:port` (RFC 9110 §7.2: `uri-host [":" port]`) that is outside every base
+    domain of the configuration — not a base domain, not a sub-domain of one, ASCII case ignored,
+    a base domain with a port being compared as the whole `host:port` — names the bucket `h` in
+    lower case: for every host name `h`, every decimal port, every single- or multi-domain
+    configuration. The port is not part of the bucket; the same host sent without a port names
+    the same bucket. -/
+theorem C12_host_port_not_in_bucket (cfg : HostCfg) (parse : Bytes → Option VirtualHost)
+    (hp : cfg.parser = some parse) (h port : Bytes) (hn : HostName h) (hport : DecimalPort port)
+    (ho : ∀ d, BaseDomain cfg d → Outside d (h ++ colon :: port)) :
+    parse (h ++ colon :: port) = some ⟨h ++ colon :: port, some (toAsciiLower h)⟩ ∧
+    ((∀ d, BaseDomain cfg d → Outside d h) → parse h = some ⟨h, some (toAsciiLower h)⟩) := by
+  cases cfg with
+  | none => cases hp
+  | single d =>
+    injection hp with hp; subst hp
+    exact ⟨singleParse_name_port hn hport (ho d (Or.inl rfl)),
+      fun ho' => singleParse_name hn (ho' d (Or.inl rfl))⟩
+  | multi ds =>
+    injection hp with hp; subst hp
+    exact ⟨multiParse_name_port hn hport fun d hd => ho d (Or.inr ⟨ds, rfl, hd⟩),
+      fun ho' => multiParse_name hn fun d hd => ho' d (Or.inr ⟨ds, rfl, hd⟩)⟩
+
+/-- whatever the two host parsers derive from a host outside the base domains holds no `:` — for
+    every `Host` value whatsoever (so `check_bucket_name` never refuses such a bucket for a port) -/
+theorem C12_host_fallback_bucket_has_no_port (cfg : HostCfg) (parse : Bytes → Option VirtualHost)
+    (hp : cfg.parser = some parse) (host : Bytes) (vh : VirtualHost)
+    (ho : ∀ d, BaseDomain cfg d → parseHostHeader d host = none) (hv : parse host = some vh) :
+    vh.domain = host ∧ vh.bucket = some (bucketOfHost host) ∧ colon ∉ bucketOfHost host := by
+  have hf : fallback host = some vh := by
+    cases cfg with
+    | none => cases hp
+    | single d =>
+      injection hp with hp; subst hp
+      simpa [singleParse, ho d (Or.inl rfl)] using hv
+    | multi ds =>
+      injection hp with hp; subst hp
+      have : firstMatch ds host = none :=
+        firstMatch_none.mpr fun d hd => ho d (Or.inr ⟨ds, rfl, hd⟩)
+      simpa [multiParse, this] using hv
+  unfold fallback at hf
+  split at hf
+  · injection hf with hf; subst hf
+    exact ⟨rfl, rfl, bucketOfHost_no_colon host⟩
+  · cases hf
+
+/-- end to end at the glue of `prepare`: a request with `Host: h:port` outside the base domains
+    (the CNAME style of the AWS documentation, `Host: static.example.com:8080`) and every
+    percent-spelling `e` of `/k` is resolved to `Object (lower h) k` -/
+theorem C12_key_verbatim_host_with_port (cfg : HostCfg) (parse : Bytes → Option VirtualHost)
+    (hp : cfg.parser = some parse) (h port k e : Bytes) (hn : HostName h) (hport : DecimalPort port)
+    (ho : ∀ d, BaseDomain cfg d → Outside d (h ++ colon :: port))
+    (hs : headerToStrOk (h ++ colon :: port) = true)
+    (hip : isSocketAddrOrIpAddr (h ++ colon :: port) = false)
+    (hb : checkBucketName (toAsciiLower h) = true) (hk0 : 0 < k.length) (hk : k.length ≤ 1024)
+    (hu : utf8Valid k = true) (hsp : Spelling e (slash :: k)) :
+    classify cfg (some (h ++ colon :: port)) e = .ok (.object (toAsciiLower h) k) := by
+  have hv := (C12_host_port_not_in_bucket cfg parse hp h port hn hport ho).1
+  rw [classify_vhost hp hs hip hv, urlDecode_spelling hsp (by rw [utf8Valid_cons_ascii (by decide), hu])]
+  simp only []
+  rw [parseVirtualHostedStyle_object hb hk0 hk]; rfl
+
 /-! ## bucket names -/
 
 /-- whatever `check_bucket_name` accepts obeys the core naming rules ("not formatted as an IP
@@ -259,5 +325,29 @@ example : multiNew [exMixedCase, exDomain2] = .ok [exMixedCase, exDomain2] := rf
 example : (46 :: toAsciiLower exPlainCom) <:+ toAsciiLower exMixedCase := by decide
 example : multiNew [exMixedCase, exPlainCom] = .error .overlappingSubdomains := rfl
 example : multiNew [exPlainCom, exMixedCase] = .error .overlappingSubdomains := rfl
+
+/-- `static.example.com` (the Upload example of the AWS REST-authentication document) -/
+def exCname : Bytes := [115, 116, 97, 116, 105, 99, 46, 101, 120, 97, 109, 112, 108, 101, 46, 99, 111, 109]
+/-- `8080` -/
+def exPort : Bytes := [56, 48, 56, 48]
+/-- `db-backup.dat.gz` -/
+def exCnameKey : Bytes := [100, 98, 45, 98, 97, 99, 107, 117, 112, 46, 100, 97, 116, 46, 103, 122]
+/-- hypotheses of `C12_host_port_not_in_bucket` / `C12_key_verbatim_host_with_port`: the host
+    `static.example.com:8080` under the base domains `s3.example.com` and `example.org` -/
+example : HostName exCname := by decide
+example : DecimalPort exPort := by decide
+example : DecimalPort [54, 53, 53, 51, 53] := by decide
+example : ¬ DecimalPort [54, 53, 53, 51, 54] := by decide
+example : Outside exDomain (exCname ++ colon :: exPort) ∧ Outside exDomain2 (exCname ++ colon :: exPort) ∧
+    Outside exDomain exCname := by decide
+example : headerToStrOk (exCname ++ colon :: exPort) = true := by decide
+example : isSocketAddrOrIpAddr (exCname ++ colon :: exPort) = false := by decide
+example : checkBucketName (toAsciiLower exCname) = true := by decide
+/-- a host under a base domain that carries a port is not outside it (it is matched as a whole):
+    `b.example.org:9000` under `example.org:9000`, while under `example.org:9001` it is outside -/
+example : ¬ Outside (exDomain2 ++ colon :: [57, 48, 48, 48]) (98 :: dot :: exDomain2 ++ colon :: [57, 48, 48, 48]) := by
+  decide
+example : Outside (exDomain2 ++ colon :: [57, 48, 48, 49]) (98 :: dot :: exDomain2 ++ colon :: [57, 48, 48, 48]) := by
+  decide
 
 end S3V.C12
